@@ -1685,6 +1685,83 @@ def gen_run_plan():
 GENERATORS["RunPlan.lean"] = gen_run_plan
 
 
+def gen_tick_plan():
+    """src/lib.rs: Nucleo::tick and tick_inner — the order of their steps and the conditions that decide cancelling, spawning, copying the
+    snapshot and re-arming the notification flag (C06, C07, C12, C13, C19, C20)"""
+    lsrc = strip_comments(read("src/lib.rs"))
+    psrc = strip_comments(read("src/pattern.rs"))
+    statuses = enum_variants(psrc, "Status")
+    bodies = fn_bodies(lsrc)
+    hook = r"#\[cfg\(nucleo_verif\)\]\s*crate::verif::point\([^;]*\);"
+    tick = re.sub(hook, "", bodies.get("tick", [""])[0])
+    inner = re.sub(hook, "", bodies.get("tick_inner", [""])[0])
+    mt = re.fullmatch(
+        r"\{\s*self\.should_notify\.store\(false, atomic::Ordering::Relaxed\);\s*let status = self\.pattern\.status\(\);\s*"
+        r"let canceled = (?P<c_cancel>[^;]+);\s*let mut res = self\.tick_inner\(timeout, canceled, status\);\s*"
+        r"if !canceled \{\s*return res;\s*\}\s*self\.state = State::Fresh;\s*"
+        r"let status2 = self\.tick_inner\(timeout, false, pattern::Status::(?P<s2>\w+)\);\s*"
+        r"res\.changed \|= status2\.changed;\s*res\.running = status2\.running;\s*res\s*\}", tick.strip(), re.S)
+    if not mt:
+        raise TranslateError("Nucleo::tick has an unexpected shape")
+    mi = re.fullmatch(
+        r"\{\s*let mut inner = if canceled \{\s*self\.pattern\.reset_status\(\);\s*self\.canceled\.store\(true, atomic::Ordering::Relaxed\);\s*self\.worker\.lock_arc\(\)\s*\} else \{\s*"
+        r"let Some\(worker\) = self\.worker\.try_lock_arc_for\(Duration::from_millis\(timeout\)\) else \{\s*"
+        r"self\.should_notify\.store\(true, Ordering::Release\);\s*return Status \{\s*changed: (?P<t_changed>true|false),\s*running: (?P<t_running>true|false),\s*\};\s*\};\s*worker\s*\};\s*"
+        r"let changed = inner\.running;\s*let running = (?P<c_running>[^;]+);\s*"
+        r"if inner\.running \{\s*inner\.running = false;\s*if (?P<c_update>[^{]+?) \{\s*self\.snapshot\.update\(&inner\)\s*\}\s*\}\s*"
+        r"if running \{\s*inner\.pattern\.clone_from\(&self\.pattern\);\s*self\.canceled\.store\(false, atomic::Ordering::Relaxed\);\s*"
+        r"if (?P<c_rearm>[^{]+?) \{\s*self\.should_notify\.store\(true, atomic::Ordering::Release\);\s*\}\s*"
+        r"let cleared = self\.state\.cleared\(\);\s*if cleared \{\s*inner\.items = self\.items\.clone\(\);\s*\}\s*"
+        r"self\.pool\s*\.spawn\(move \|\| unsafe \{ inner\.run\(status, cleared\) \}\)\s*\}\s*Status \{ changed, running \}\s*\}", inner.strip(), re.S)
+    if not mi:
+        raise TranslateError("Nucleo::tick_inner has an unexpected shape")
+    if mt.group("s2") not in statuses:
+        raise TranslateError("tick: status of the second tick_inner")
+
+    def cond(text):
+        text = text.strip()
+        op = "||" if "||" in text else "&&"
+        if "||" in text and "&&" in text:
+            raise TranslateError(f"tick: mixed condition {text!r}")
+        terms = []
+        for t in text.split(op):
+            t = t.strip()
+            mm = re.fullmatch(r"status (==|!=) pattern::Status::(\w+)", t)
+            table = {"self.state.canceled()": "state_canceled", "!self.state.canceled()": "!state_canceled", "canceled": "canceled", "!canceled": "!canceled",
+                     "self.items.count() > inner.item_count()": "decide (count > item_count)", "!inner.was_canceled": "!was_canceled", "inner.was_canceled": "was_canceled"}
+            if mm and mm.group(2) in statuses:
+                terms.append(f"(status {mm.group(1)} {statuses.index(mm.group(2))})")
+            elif t in table:
+                terms.append(table[t])
+            else:
+                raise TranslateError(f"tick: condition term {t!r}")
+        return f" {op} ".join(terms)
+    out = ["/- GENERATED by translator/translate.py from src/lib.rs (Nucleo::tick, tick_inner) and src/pattern.rs (Status) — do not edit -/",
+           "namespace NucleoVerif.Gen.TickPlan", "",
+           "/-- `Status` variants in declaration order: " + ", ".join(f"{i} = {k}" for i, k in enumerate(statuses)) + " -/",
+           f"def statuses : Nat := {len(statuses)}", "",
+           "/-- `tick` clears `should_notify` first, reads the pattern status, and: `let canceled = ..` -/",
+           f"def tick_cancels (status : Nat) (state_canceled : Bool) : Bool := {cond(mt.group('c_cancel'))}", "",
+           "/-- a cancelling tick: `tick_inner(timeout, true, status)`, `state = Fresh`, then `tick_inner(timeout, false, <this status>)` -/",
+           f"def second_inner_status : Nat := {statuses.index(mt.group('s2'))}", "",
+           "/-- `res.changed |= status2.changed; res.running = status2.running` -/",
+           "def combine (changed1 running1 changed2 running2 : Bool) : Bool × Bool := (changed1 || changed2, running2)", "",
+           "/-- `tick_inner`, lock timed out: re-arm `should_notify` and return this status -/",
+           f"def timeout_status : Bool × Bool := ({mi.group('t_changed')}, {mi.group('t_running')})", "",
+           "/-- `tick_inner`, lock held: `changed = inner.running`; `let running = ..` (a new run is spawned) -/",
+           f"def spawns (canceled : Bool) (count item_count : Nat) : Bool := {cond(mi.group('c_running'))}", "",
+           "/-- `if inner.running { inner.running = false; if .. { self.snapshot.update(&inner) } }` -/",
+           f"def copies_snapshot (inner_running was_canceled state_canceled : Bool) : Bool := inner_running && ({cond(mi.group('c_update'))})", "",
+           "/-- when spawning: the worker gets the current pattern, the cancel flag is lowered, and `if .. { should_notify.store(true) }`; the run is",
+           "    `inner.run(status, self.state.cleared())`, with the current item list handed over on a cleared run -/",
+           f"def rearms_on_spawn (canceled : Bool) : Bool := {cond(mi.group('c_rearm'))}", "",
+           "end NucleoVerif.Gen.TickPlan"]
+    return "\n".join(out) + "\n"
+
+
+GENERATORS["TickPlan.lean"] = gen_tick_plan
+
+
 def rust_struct_fields(src, name):
     m = re.search(r"struct\s+%s\s*\{(.*?)\}" % name, src, re.S)
     if m:
